@@ -296,14 +296,29 @@ void drive_draw(std::string const &rname, base_of<R> const a, base_of<R> const b
   vj::J pre;
   // every other non-variate run constructs the distribution through the factory make_basic
   bool const via_make_basic = !via_variate && script.size() % 2 == 1;
-  pre.kv("f", "draw").kv("wide", wide).kv("kind", kind_of<R>::get()).kv("R", rname).kv("via", via_variate ? "variate" : via_make_basic ? "make_basic" : "basic");
+#if defined(C20_PARAM_API)
+  // ... and every script whose raw values sum to a multiple of 3 draws from basic<P>(d.param()):
+  // the parameters read back from a distribution over [a,b]; the std side does the same read-back
+  long script_sum = 0;
+  for (int x : script) script_sum += x;
+  bool const via_readback = !script.empty() && script_sum % 3 == 0;
+#else
+  bool const via_readback = false;
+#endif
+  pre.kv("f", "draw").kv("wide", wide).kv("kind", kind_of<R>::get()).kv("R", rname);
+  pre.kv("via", via_readback ? (via_variate ? "readback_variate" : "readback_basic") : via_variate ? "variate" : via_make_basic ? "make_basic" : "basic");
   pre.raw("a", val_json(num_of(a), wide)).raw("b", val_json(num_of(b), wide)).kv("script", script);
   emit(pre, [&](vj::J &r) {
     Run w;
     {
       scripted gen(script);
       params const pr(typename params::min(decorate<R>(a)), typename params::max(decorate<R>(b)));
-      dist d{via_make_basic ? fcppt::random::distribution::make_basic(pr) : dist{pr}};
+      dist const d_first{via_make_basic ? fcppt::random::distribution::make_basic(pr) : dist{pr}};
+#if defined(C20_PARAM_API)
+      dist d{via_readback ? dist{d_first.param()} : d_first};
+#else
+      dist d{d_first};
+#endif
       fcppt::random::variate<scripted, dist> var(fcppt::make_ref(gen), d);
       for (int i = 0; i < max_draws; ++i)
       {
@@ -324,7 +339,8 @@ void drive_draw(std::string const &rname, base_of<R> const a, base_of<R> const b
     Run s;
     {
       scripted gen(script);
-      std::uniform_int_distribution<B> d(a, b);
+      std::uniform_int_distribution<B> const d_first(a, b);
+      std::uniform_int_distribution<B> d(via_readback ? std::uniform_int_distribution<B>(d_first.param()) : d_first);
       for (int i = 0; i < max_draws; ++i)
       {
         try
@@ -856,10 +872,16 @@ enum op_code
   op_vmove,      // continue with a moved variate
   op_copy,       // copy-construct the distribution, copy-assign it over another one and back
   op_inout,      // write the distribution with <<, read it into another one with >> and continue with that one
+  // parameters READ BACK from the distribution (param()) and fed into a distribution again
+  op_rb_ctor,    // continue with basic<P>(d.param())
+  op_rb_param,   // continue with another distribution after e.param(d.param())
+  op_rb_draw,    // draw from another distribution with e(rng, d.param())
+  op_rb_wrap,    // variate(gen, basic<P>(d.param())); followed by vdraw
   op_count
 };
 char const *const op_names[] = {"draw",       "reset",     "param_get", "param_set", "draw_param", "minmax", "eq",   "out",
-                                "draw_other", "wrap_ctor", "wrap_make", "vdraw",     "vcopy",      "vmove",  "copy", "inout"};
+                                "draw_other", "wrap_ctor", "wrap_make", "vdraw",     "vcopy",      "vmove",  "copy", "inout",
+                                "rb_ctor",    "rb_param",  "rb_draw",   "rb_wrap"};
 
 constexpr int fresh_draws = 4;
 
@@ -1034,6 +1056,53 @@ void drive_session(
         sd = sa;
         break;
       }
+      case op_rb_ctor:
+      {
+        dist const e{d.param()};
+        d = e;
+        sdist const se2(sd.param());
+        sd = se2;
+        break;
+      }
+      case op_rb_param:
+      {
+        dist e{Fam::make(q1, q2)};
+        e.param(d.param());
+        d = e;
+        sdist se2(Fam::smake(q1, q2));
+        se2.param(sd.param());
+        sd = se2;
+        break;
+      }
+      case op_rb_draw:
+      {
+        try
+        {
+          dist e{Fam::make(q1, q2)};
+          R const x = e(cf, d.param());
+          w = "[" + Fam::val(base(x)) + "]";
+        }
+        catch (script_exhausted const &)
+        {
+          stop = true;
+        }
+        try
+        {
+          sdist se2(Fam::smake(q1, q2));
+          B const y = se2(cs, sd.param());
+          s = "[" + Fam::val(y) + "]";
+        }
+        catch (script_exhausted const &)
+        {
+          stop = true;
+        }
+        if constexpr (Fam::bounded) extra = ",\"lo\":" + Fam::val(c1) + ",\"hi\":" + Fam::val(c2);
+        break;
+      }
+      case op_rb_wrap:
+        wrapped.emplace(fcppt::make_ref(cf), dist{d.param()});
+        swrapped.emplace(sdist(sd.param()));
+        break;
       case op_inout:
       {
 #if defined(C20_ISTREAM_API)
@@ -1218,6 +1287,26 @@ std::vector<std::vector<int>> session_patterns(vj::Rng &r, int const nrandom)
     dd.push_back(op_reset);
     dd.push_back(op_draw);
     dd.push_back(op_draw);
+    ps.push_back(dd);
+  }
+  // parameters read back with param() and fed into a distribution again, then drawn from
+  for (int k = 0; k <= 1; ++k)
+  {
+    std::vector<int> pre(static_cast<std::size_t>(k), op_draw);
+    std::vector<int> a = pre;
+    a.push_back(op_rb_ctor);
+    for (int i = 0; i < 6; ++i) a.push_back(op_draw);
+    ps.push_back(a);
+    std::vector<int> b = pre;
+    b.push_back(op_rb_param);
+    for (int i = 0; i < 6; ++i) b.push_back(op_draw);
+    ps.push_back(b);
+    std::vector<int> c = pre;
+    for (int i = 0; i < 6; ++i) c.push_back(op_rb_draw);
+    ps.push_back(c);
+    std::vector<int> dd = pre;
+    dd.push_back(op_rb_wrap);
+    for (int i = 0; i < 6; ++i) dd.push_back(op_vdraw);
     ps.push_back(dd);
   }
   // a distribution object that has been drawn from k times (same engine / another engine / both)
@@ -1546,7 +1635,7 @@ bool replay_one(vj::V const &e)
       }
 #endif
       drive_draw<R>(e.str("R"), int_of_num<base_of<R>>(num_of_json(e.at("a"))), int_of_num<base_of<R>>(num_of_json(e.at("b"))), script(),
-                    e.str("via") == "variate", nullptr, nullptr);
+                    e.str("via") == "variate" || e.str("via") == "readback_variate", nullptr, nullptr);
     });
   }
   if (f == "agg")
